@@ -351,6 +351,25 @@ example : treeReq (2 ^ 64 - 8) = none := by decide
 
 /-! ## slab -/
 
+/-- In every state reachable by `slab_alloc` / `slab_free` (freed objects are reused, LIFO): the
+    free objects and the objects the client holds are pairwise different slots
+    `fragment + 16 + i·final_size` lying inside their fragment (so any two are at least
+    `final_size ≥ 16` bytes apart), fragments do not overlap each other nor `struct Slab`, every
+    fragment starts at a multiple of `A`, and the regions obtained from the parent are exactly
+    `struct Slab` and the fragments. -/
+theorem slab_inv {A : Nat} {s : Slab} {live : List Nat} {ob : List (Nat × Nat)} (h : SReach A s live ob) :
+    16 ≤ s.finalSize ∧ (s.freelist ++ live).Nodup ∧
+    (∀ o ∈ s.freelist ++ live, ∃ f ∈ s.frags, ∃ i, o = f.1 + slabFragHdr + i * s.finalSize ∧
+        f.1 + slabFragHdr + (i + 1) * s.finalSize ≤ f.1 + f.2) ∧
+    s.frags.Pairwise (fun a b => a.1 + a.2 ≤ b.1 ∨ b.1 + b.2 ≤ a.1) ∧
+    (∀ f ∈ s.frags, s.hdr + sizeofSlab ≤ f.1 ∨ f.1 + f.2 ≤ s.hdr) ∧
+    (∀ f ∈ s.frags, f.1 % A = 0) ∧ ob = (s.hdr, sizeofSlab) :: s.frags := by
+  obtain ⟨hM, hob, hfa, hd⟩ := sreach_inv h
+  refine ⟨hM.inv.fs_ge, hM.inv.nodup, hM.inv.slot, hd, ?_, hfa, hob⟩
+  intro f hf
+  have := hM.hdr_disj f hf
+  simpa [fragDisj] using this
+
 /-- In every state reachable by `slab_alloc` / `slab_free` (freed objects are reused, LIFO) over
     a parent that answers with fresh memory at multiples of `A`: the object `slab_alloc` returns
     is a slot of one fragment obtained from the parent (behind the fragment header, `final_size`
@@ -540,6 +559,30 @@ example : ∃ mp, MReach mp [⟨4216, 300⟩, ⟨4112, 100⟩] [(4096, 528)] ∧
     (by intro req _ a ha; cases ha; exact ⟨by decide, by intro s hs; cases hs⟩) rfl
   have h2 := MReach.alloc (size := 300) (pa := none) h1 (by intro req _ a ha; cases ha) rfl
   exact ⟨_, h2, by decide⟩
+
+/-- Size computations of `mempool_alloc` never wrap `unsigned`: for every request it does not
+    refuse (`size ≤ UINT_MAX/4`) in any reachable state, the aligned size, `used + size` in every
+    segment, the start value of `nsize`, every value `nsize` takes while doubling and the final
+    `nsize` are below 2^32, the loop ends with `nsize ≥ size`, and the `calloc` request fits. -/
+theorem mempool_no_wrap {mp : MemPool} {live : List Block} {ob : List (Nat × Nat)} {size : Nat}
+    (h : MReach mp live ob) (hmax : size ≤ mpMaxSize) :
+    alignUp size 8 < 2 ^ 32 ∧ (∀ s ∈ mp.segs, s.used + alignUp size 8 < 2 ^ 32 ∧ s.size < 2 ^ 32) ∧
+    mpStartSize mp < 2 ^ 32 ∧ (∀ k, k ≤ 32 → growTo k (mpStartSize mp) (alignUp size 8) < 2 ^ 32) ∧
+    alignUp size 8 ≤ mpNextSize mp (alignUp size 8) ∧ mpHdr + mpNextSize mp (alignUp size 8) < 2 ^ 33 := by
+  obtain ⟨hi, _⟩ := mreach_inv h
+  have hlt := alignUp_lt (x := size) (a := 8) (by omega)
+  have hsz : alignUp size 8 ≤ 2 ^ 30 + 8 := by rw [mpMax_val] at hmax; omega
+  obtain ⟨n1, n2, n3⟩ := mpNextSize_spec mp (alignUp size 8) hi.seg_ok hsz
+  obtain ⟨s1, s2⟩ := mpStartSize_spec mp hi.seg_ok
+  refine ⟨by omega, ?_, by omega, ?_, n1, by simp only [mpHdr]; omega⟩
+  · intro s hs
+    have := hi.seg_ok s hs
+    simp only [MSegOk] at this
+    omega
+  · intro k hk
+    have := growTo_le_of_le k 32 (mpStartSize mp) (alignUp size 8) hk
+    unfold mpNextSize at n3
+    omega
 
 /-- `mempool_destroy` frees exactly the regions obtained from `calloc`, each once. -/
 theorem mempool_destroy_returns_once {mp : MemPool} {live : List Block} {ob : List (Nat × Nat)}
